@@ -59,6 +59,7 @@ structure Cfg where
   n : Nat
   ops : List ScaleOp
   ref : Nat
+  utc : Nat
 
 /-- the EOP database and configuration seen by `EopDb.get`, and the TDB−TT term as a function of the
 `mjd` argument (given as its numerator in ticks; a float formula in the code, a parameter here) -/
@@ -159,13 +160,31 @@ def Date.inst (x : Date) : Int := x.d * D + x.s
 /-- `d += int((s + offset) // 86400); s = (s + offset) % 86400.0` -/
 def normalise (d s off : Int) : Int × Int := (d + (s + off) / D, (s + off) % D)
 
-/-- `Date(d, s, scale=…)` (two-argument form; every other form reduces to it).  `mjd = d + s/86400`,
-`eop = EopDb.get(mjd)`, `offset = scale.offset(mjd, REF_SCALE, eop)` -/
-def mk (cfg : Cfg) (env : Env) (scale : Nat) (d s : Int) : Except Err Date :=
-  let num := d * D + s
+/-- the EOP record of a new date: `EopDb.get(mjd)` with the clock reading of the date's own scale, and — since fix
+fc514f7 — for every scale but UTC a second `EopDb.get(mjd_utc)` when the day number of
+`mjd_utc = mjd + scale.offset(mjd, "UTC", eop)/86400` differs from that of `mjd` (`int()` truncates) -/
+def eopFor (cfg : Cfg) (env : Env) (scale : Nat) (num : Int) : Except Err Eop :=
   match (eopGet env num).value with
   | none => .error .missingEop
-  | some eop =>
+  | some eop0 =>
+    if scale = cfg.utc then .ok eop0
+    else
+      match offset cfg env scale cfg.utc num eop0 with
+      | .error e => .error e
+      | .ok offU =>
+        if Int.tdiv (num + offU) D ≠ Int.tdiv num D then
+          match (eopGet env (num + offU)).value with
+          | none => .error .missingEop
+          | some eop => .ok eop
+        else .ok eop0
+
+/-- `Date(d, s, scale=…)` (two-argument form; every other form reduces to it).  `mjd = d + s/86400`,
+`eop` as in `eopFor`, `offset = scale.offset(mjd, REF_SCALE, eop)` -/
+def mk (cfg : Cfg) (env : Env) (scale : Nat) (d s : Int) : Except Err Date :=
+  let num := d * D + s
+  match eopFor cfg env scale num with
+  | .error e => .error e
+  | .ok eop =>
     match offset cfg env scale cfg.ref num eop with
     | .error e => .error e
     | .ok off =>
@@ -211,14 +230,14 @@ def subTd (cfg : Cfg) (env : Env) (x : Date) (tUs : Int) : Except Err Date := ad
 /-- `self - other` for two dates: `self._datetime - other._datetime`, microseconds -/
 def subDate (x y : Date) : Int := x.datetimeRef - y.datetimeRef
 
-/-- comparisons: `self._mjd ⋈ other._mjd` -/
-def Date.lt (x y : Date) : Bool := decide (x.inst < y.inst)
-def Date.le (x y : Date) : Bool := decide (x.inst ≤ y.inst)
-def Date.eq (x y : Date) : Bool := decide (x.inst = y.inst)
-def Date.gt (x y : Date) : Bool := decide (x.inst > y.inst)
-def Date.ge (x y : Date) : Bool := decide (x.inst ≥ y.inst)
-/-- what `__hash__` hashes: `_mjd` -/
-def Date.hashKey (x : Date) : Int := x.inst
+/-- comparisons: `self._datetime ⋈ other._datetime` (since fix d8c716a; `_mjd`, a double, before) -/
+def Date.lt (x y : Date) : Bool := decide (x.datetimeRef < y.datetimeRef)
+def Date.le (x y : Date) : Bool := decide (x.datetimeRef ≤ y.datetimeRef)
+def Date.eq (x y : Date) : Bool := decide (x.datetimeRef = y.datetimeRef)
+def Date.gt (x y : Date) : Bool := decide (x.datetimeRef > y.datetimeRef)
+def Date.ge (x y : Date) : Bool := decide (x.datetimeRef ≥ y.datetimeRef)
+/-- what `__hash__` hashes: `_datetime` -/
+def Date.hashKey (x : Date) : Int := x.datetimeRef
 
 /-! ### DateRange (on instants, in microseconds)
 
